@@ -210,6 +210,45 @@ def mapTransposeDia (f : R → R) (m : Dia R) : Dia R :=
       if (j : Int) < -d.1 ∨ (j : Int) + d.1 ≥ (m.cols : Int) then 0 else f (d.2 ((j : Int) + d.1).toNat)) }
 end diaTranspose
 
+/-! ### `matmul_dia_dense_dense`: Dia @ Dense, three accumulation branches, four ways of delivering the result -/
+section diaDense
+variable {R : Type} [Add R] [Mul R] [OfNat R 0]
+
+/-- does stored diagonal `d` of a `rows × cols` Dia matrix contribute to output row `row`, and from which column `k`?
+`fast` is the square-matrix fast track (`length = cols − |offset|`), otherwise the general bounds
+`start_left = max(0, off)`, `start_out = max(0, −off)`, `length = min(end_left − start_left, end_out − start_out)`. -/
+def diaRowTerm (rows cols : Nat) (fast : Bool) (d : Int × (Nat → R)) (row : Nat) (bcol : Nat → R) : R :=
+  let off := d.1
+  let startLeft := max 0 off
+  let startOut := max 0 (-off)
+  let length : Int := if fast then (cols : Int) - (Int.natAbs off : Nat)
+    else min (min (cols : Int) ((rows : Int) + off) - startLeft) (min (rows : Int) ((cols : Int) - off) - startOut)
+  let i := (row : Int) - startOut
+  if 0 ≤ i ∧ i < length then d.2 (startLeft + i).toNat * bcol (startLeft + i).toNat else 0
+
+/-- the accumulation loops of `matmul_dia_dense_dense` into the buffer `t` (shape `L.rows × b.cols`): every position of
+the buffer is an entry (row, col) according to `t`'s memory order and receives the contributions of all stored diagonals -/
+def diaDenseCore (L : Dia R) (b t : Dense R) : Dense R :=
+  let fast := (L.rows == L.cols) && !b.fortran && !t.fortran
+  { t with data := fun p =>
+      if p < L.rows * b.cols then
+        let row := if t.fortran then p % L.rows else p / b.cols
+        let col := if t.fortran then p / L.rows else p % b.cols
+        t.data p + (L.diags.map fun d => diaRowTerm L.rows L.cols fast d row (fun k => b.abs k col)).foldl (· + ·) 0
+      else t.data p }
+
+/-- `matmul_dia_dense_dense(left, right, scale, out)`: with `out` given and `scale = 1` the products are accumulated in
+`out` itself; otherwise in a zero matrix with `right`'s memory order, which is then scaled, or added to `out` with `scale` -/
+def matmulDiaDense [DecidableEq R] [OfNat R 1] (L : Dia R) (b : Dense R) (s : R) (out : Option (Dense R)) : Dense R :=
+  match out with
+  | some o =>
+    if s = 1 then diaDenseCore L b o
+    else iaddDense o (diaDenseCore L b (Dense.ofFn L.rows b.cols b.fortran fun _ _ => 0)) s
+  | none =>
+    let t := diaDenseCore L b (Dense.ofFn L.rows b.cols b.fortran fun _ _ => 0)
+    if s = 1 then t else { t with data := fun p => if p < L.rows * b.cols then s * t.data p else t.data p }
+end diaDense
+
 /-! ### the dispatcher: a specialisation built from a registered one and conversions -/
 
 /-- converters between formats preserve the matrix; `Repr f` is the carrier of format `f` -/
